@@ -318,6 +318,7 @@ TrialEnd(r, e) ==
         <<"P:C15", "fail.keepsPoint", e.kind = "fail" => e.pt = t.from>>,
         <<"P:C15", "nonaccept.shrinks", (e.kind # "accept" /\ ~inner[r].dl) => Lt(t.lambUsed, e.lambNext)>>,
         <<"P:C07", "fault.notaccepted", inner[r].fault => e.kind # "accept">>,
+        <<"P:C07", "fault.shrinks", (inner[r].fault /\ e.kind # "accept" /\ ~inner[r].dl) => Lt(t.lambUsed, e.lambNext)>>,
         <<"P:C08", "deadline.notaccepted", inner[r].dl => e.kind # "accept">>,
         <<"P:C07", "accept.neverfailed", e.kind = "accept" => ~(\E b \in bad[r] : b[1] = e.ptx)>>,
         <<"P:C05", "accept.inbox", e.kind = "accept" => e.inbox>>,
